@@ -456,27 +456,21 @@ Proof.
   apply filter_nonempty_singletons.
 Qed.
 
-(* K8: the class of groups on which the fast path of redundant_count differs from the documented rule *)
-Definition K8_class (g : group) (flt : gfilter) : Prop :=
-  roots flt = [] /\ by_id flt = true /\ ~ NoDup (map fid (gfiles g)).
-
-Theorem redundant_count_spec g flt : ~ K8_class g flt -> redundant_count g flt = redundant_spec g flt.
+(* the fast path (no roots, --match-links) agrees with the documented rule: every path is a sub-group *)
+Theorem redundant_count_spec g flt : redundant_count g flt = redundant_spec g flt.
 Proof.
-  intros HK. unfold redundant_count, redundant_spec. destruct (repl flt) as [rf|rf]; auto.
+  unfold redundant_count, redundant_spec. destruct (repl flt) as [rf|rf]; auto.
   destruct (roots flt) as [|r rs] eqn:Er; auto.
-  unfold file_count. destruct (by_id flt) eqn:Eb.
-  - destruct (ListDec.NoDup_dec (fun a b : N * N => ltac:(decide equality; apply N.eq_dec)) (map fid (gfiles g))) as [Hnd|Hnd].
-    + rewrite subgroups_no_roots_nodup by auto. rewrite sum_lengths_singletons. rewrite N2Nat.id. reflexivity.
-    + exfalso. apply HK. unfold K8_class. auto.
-  - rewrite subgroups_no_roots_false. rewrite sum_lengths_singletons. rewrite N2Nat.id. reflexivity.
+  destruct (by_id flt) eqn:Eb; auto.
+  unfold file_count. rewrite subgroups_no_roots_false. rewrite sum_lengths_singletons. rewrite N2Nat.id. reflexivity.
 Qed.
 
-Theorem stats_redundant_spec flt gs : Forall (fun g => ~ K8_class g flt) gs ->
+Theorem stats_redundant_spec flt gs :
   s_red_files (stats_of flt gs) = fold_right (fun g a => redundant_spec g flt + a) 0 gs /\
   s_red_size (stats_of flt gs) = fold_right (fun g a => glen g * redundant_spec g flt + a) 0 gs.
 Proof.
-  intros H. cbn [stats_of s_red_files s_red_size]. induction H as [|g gs Hg _ [IH1 IH2]]; cbn [fold_right]; auto.
-  rewrite IH1, IH2, (redundant_count_spec g flt Hg). auto.
+  cbn [stats_of s_red_files s_red_size]. induction gs as [|g gs [IH1 IH2]]; cbn [fold_right]; auto.
+  rewrite IH1, IH2, (redundant_count_spec g flt). auto.
 Qed.
 
 (* the other statistics are by definition sums over the printed groups *)
